@@ -1,8 +1,12 @@
 package props
 
 import (
+	"bytes"
 	"encoding/binary"
+	"encoding/hex"
+	"encoding/json"
 	"fmt"
+	"strings"
 	"testing"
 
 	"github.com/google/go-tdx-guest/verify"
@@ -48,6 +52,7 @@ func c07Run(t gen.TB, w *gen.World, desc string) {
 func TestC07(t *testing.T) {
 	replayDir(t, "C07")
 	gen.Direct(t, "message-field-width", c07MessageWidth)
+	gen.Prop(t, "signed-identity-omits-what-an-unsigned-twin-supplies", gen.N(600, 40000), c07Omitted)
 	gen.Prop(t, "model", gen.N(5000, 300000), func(t *rapid.T) {
 		w, _ := gen.DrawWorld(t, gen.WorldCfg{MaxAuth: 16, Simple: true, NoModule: true})
 		s := gen.NewStream(rapid.Uint64().Draw(t, "c"), "c07")
@@ -104,23 +109,23 @@ func TestC07(t *testing.T) {
 		case "misc-3":
 			d.Miscselect = d.Miscselect[:3]
 		case "misc-5":
-			d.Miscselect = append(d.Miscselect, 0)
+			d.Miscselect = append(d.Miscselect, longTail(t, s)...)
 		case "miscmask-3":
 			d.MiscselectMask = d.MiscselectMask[:3]
 		case "miscmask-5":
-			d.MiscselectMask = append(d.MiscselectMask, 0)
+			d.MiscselectMask = append(d.MiscselectMask, longTail(t, s)...)
 		case "attr-15":
 			d.Attributes = d.Attributes[:15]
 		case "attr-17":
-			d.Attributes = append(d.Attributes, 0)
+			d.Attributes = append(d.Attributes, longTail(t, s)...)
 		case "attrmask-15":
 			d.AttributesMask = d.AttributesMask[:15]
 		case "attrmask-17":
-			d.AttributesMask = append(d.AttributesMask, 0)
+			d.AttributesMask = append(d.AttributesMask, longTail(t, s)...)
 		case "mrsigner-31":
 			d.Mrsigner = d.Mrsigner[:31]
 		case "mrsigner-33":
-			d.Mrsigner = append(d.Mrsigner, 0)
+			d.Mrsigner = append(d.Mrsigner, longTail(t, s)...)
 		case "upper-hex":
 			d.UpperHex = true
 		case "report-isvsvn":
@@ -130,6 +135,55 @@ func TestC07(t *testing.T) {
 		gen.Sample("qe", map[string]any{"perturb": pert, "levels": fmt.Sprint(d.Levels), "report_isvsvn": q.QeIsvSvn})
 		c07Run(t, w, pert)
 	})
+}
+
+// c07Omitted: the SIGNED identity lacks a value the comparison needs (a top-level field, or the status of a level)
+// while an unsigned, differently spelled sibling member carries a complete, matching identity. "The QE identity"
+// is the signed one: with the value missing the report cannot match / no level can be UpToDate, so the quote
+// must be rejected.
+func c07Omitted(t *rapid.T) {
+	w, _ := gen.DrawWorld(t, gen.WorldCfg{MaxAuth: 16, Simple: true, NoModule: true})
+	w.Build()
+	full := w.QeID.Render()
+	var m map[string]any
+	dec := json.NewDecoder(bytes.NewReader(full))
+	dec.UseNumber()
+	if err := dec.Decode(&m); err != nil {
+		gen.HarnessError(t, "own identity does not decode: %v", err)
+	}
+	drop := rapid.SampledFrom([]string{"mrsigner", "isvprodid", "miscselect", "miscselectMask", "attributes", "attributesMask", "tcbLevels", "level.tcbStatus", "level.tcbStatus"}).Draw(t, "omitted")
+	if strings.HasPrefix(drop, "level.") {
+		for _, l := range m["tcbLevels"].([]any) {
+			delete(l.(map[string]any), strings.TrimPrefix(drop, "level."))
+		}
+	} else {
+		delete(m, drop)
+	}
+	if drop == "isvprodid" && w.Q.QeIsvProdID == 0 {
+		return // an absent number reads as 0, which is this report's value
+	}
+	partial, _ := json.Marshal(m)
+	sig := hex.EncodeToString(w.PKI.QeSig.Key.SignRaw(partial))
+	twin := rapid.SampledFrom(gen.FoldVariants("enclaveIdentity")).Draw(t, "twinSpelling")
+	var body string
+	switch rapid.IntRange(0, 2).Draw(t, "order") {
+	case 0:
+		body = `{"` + twin + `":` + string(full) + `,"enclaveIdentity":` + string(partial) + `,"signature":"` + sig + `"}`
+	case 1:
+		body = `{"enclaveIdentity":` + string(partial) + `,"` + twin + `":` + string(full) + `,"signature":"` + sig + `"}`
+	default:
+		body = `{"enclaveIdentity":` + string(partial) + `,"signature":"` + sig + `","` + twin + `":` + string(full) + `}`
+	}
+	w.Resp[gen.QeIdentityURL] = gen.Response{Header: map[string][]string{gen.HdrQeID: {gen.IssuerChainHeader(w.PKI.QeSig, w.PKI.Root)}}, Body: []byte(body)}
+	o := w.Options(gen.LvlColl, w.NewGetter(), nil)
+	gen.Eval()
+	v := gen.Call(func() error { return verify.RawTdxQuote(w.Raw, o) })
+	gen.Class("omitted:" + drop)
+	gen.NonTrivial("omitted", drop, twin, w.Raw[:64])
+	gen.Sample("omitted", map[string]any{"omitted": drop, "unsigned_twin": twin, "verdict": v.Short()})
+	if v.Accepted() {
+		gen.Fail(t, gen.Violation{Key: "accepts-bad-qe:signed-identity-lacks-" + drop, Oracle: "accepted only if the QE report matches the (signed) QE identity under its masks and the selected QE level is UpToDate", Detail: fmt.Sprintf("the signed identity has no %s; an unsigned member %q supplies a complete identity; the quote is accepted", drop, twin), Replay: w.CaseFile(gen.LvlColl, nil, nil, nil, "reject")})
+	}
 }
 
 // A QuoteV4 MESSAGE can carry ISVSVN / ISVPRODID values wider than the 16 bits that are signed: the level
@@ -154,6 +208,15 @@ func c07MessageWidth(t *testing.T) {
 		gen.NonTrivial("msgwidth", i, d)
 		gen.Class("message-width")
 	}
+}
+
+// longTail is what a too-long identity field carries after its (correct) beginning.
+func longTail(t *rapid.T, s *gen.Stream) []byte {
+	n := rapid.SampledFrom([]int{1, 1, 4, 16, 48}).Draw(t, "tail")
+	if rapid.Bool().Draw(t, "tailZero") {
+		return make([]byte, n)
+	}
+	return s.Bytes(n)
 }
 
 func and(a, m []byte) []byte {
